@@ -253,6 +253,11 @@ pub fn generate_c05(thorough: bool, seed: u64, part: (usize, usize), em: &mut Em
         // the same cuts on a transport with a read timeout: the server stalls, the read fails, the connect must fail
         for cut in 0..framed.len() { for k in &["w", "t"] { emit(em, format!("x224_stream 3 1 {} {}", if cut == 0 { "-".to_string() } else { hex(&framed[..cut]) }, k)); } }
     }
+    // the first answer as a stream, to clients that offered no protocol at all / a single one: empty and short frames, a
+    // confirm without negotiation response, a complete confirm
+    for off in &[0u32, 1, 2] { for auth in 0..2 { for st in &["03000004", "0300000506", "030000060600", "0300000b06d00000000000", "0300000b06d0000000", "0300001306d00000000000020008000000000000", "0300001306d00000000000020008000100000000", "0300000702f08000"] {
+        emit(em, format!("x224_stream {} {} {}", off, auth, st));
+    } } }
     // slow-path frames shorter than the X.224 data header (TPKT length 4..6), or with a damaged header, where the MCS
     // connect response / attach confirm / join confirm / licence is expected: an error, never a panic
     {
@@ -348,6 +353,10 @@ pub fn conforming_channel_lists(em: &mut Emitter) {
         let ids: Vec<u16> = (0..n).map(|i| 1004 + i as u16).collect();
         emit(em, format!("gcc_ccr {}", hex(&refsrv::gcc_response_channels(&p, &ids, *pad))));
     } } }
+    // channel ids the server may put in its array: 0 (not allocated), repeated, maximal — the list is reported as sent
+    for ids in &[vec![1004u16, 0, 1006], vec![0], vec![0, 0], vec![65535, 1004, 1004, 0]] { for pad in &[true, false] {
+        emit(em, format!("gcc_ccr {}", hex(&refsrv::gcc_response_channels(&SrvParams::default(), ids, *pad))));
+    } }
     // the blocks in every order (the order is free), with blocks longer than the client's templates in front of others:
     // a net block with an odd channel count (2 bytes of padding), a 16-byte core block, a security block with random and certificate
     {
